@@ -387,8 +387,16 @@ TECHNIQUE = ("Coq proof that no instruction, step, k-step execution or bounded r
              "systematic boundary single-step sweep of every modelled instruction, generated programs filtered through a model-side envelope decision, "
              "programs of pushr's own random code generator, and (thorough) every program again in a supervised child process")
 DESIGN_REF = "DESIGN.md section 6.C01"
-LEVEL_TEXT = ("THEOREMS: <filled in by the proof side> Props/C01.v: C01_instr_no_panic, C01_instr_no_panic_outside_envelope, C01_base_instr_no_panic, C01_wf_preserved, C01_step_no_panic, "
-              "C01_step_wf_preserved, C01_steps_no_panic, C01_run_no_panic, C01_envelope_from_size_bound (closed under the global context).\n"
+LEVEL_TEXT = ("Props/C01.v (9 theorems, closed under the global context; for every FloatOps, both profiles, every tape of the random number generator, every clock): "
+              "wf_state is the TYPING of a state and nothing more (every value the Rust code keeps in an i32 - INTEGER stack, INTVECTOR elements, integer literals anywhere in CODE / EXEC / bound items, "
+              "message headers, node states, the two INTEGER.RAND bounds - is an i32; INDEX fields are usize; no length, capacity or graph-invariant hypothesis). "
+              "C01_instr_no_panic: no instruction of the full registry (280 names, nine RAND and four LIST.NEIGHBOR* included) returns Panic from a wf state whose top CODE item has <= i32::MAX points (envelope); "
+              "C01_instr_no_panic_outside_envelope: every instruction except CODE.EXTRACT and CODE.NTH needs no envelope at all; C01_base_instr_no_panic: the 271 deterministic instructions need no float fact; "
+              "C01_wf_preserved / C01_step_wf_preserved: a normal return is wf again, i.e. every result is in-type (the invariant); C01_step_no_panic: literals, bound and unbound names, quoting, lists and instructions; "
+              "C01_steps_no_panic (every k) and C01_run_no_panic (every clock, every configured limit) for executions all of whose visited states are inside the envelope (stays_in_envelope; the envelope is not an invariant, "
+              "CODE.APPEND doubles sizes; C01_envelope_from_size_bound derives it from a bound on the CODE items). Proof: one table-walking tactic per family table (Proofs/NoPanic*.v, one lemma per family, concatenated), "
+              "the component lemmas for the bodies that contain possible panics (traverse never underflows, insert total, `len as i32` clamps stay inside a vector of any length, rem_euclid divisor non-zero inside the envelope, "
+              "edge length >= 1 in the topology code, the C12/C13 theorems for the RAND bodies).\n"
               "Tie to the code: (a) every instruction of the model registry is single-stepped on boundary operand tuples (full product of the two topmost elements of every stack over the boundary pools, "
               "stack depths 0..4, one stack short, INTEGER operands at a length +-1) and random states, both profiles (the nine RAND instructions through suite runnp: normal return only, the implementation draws from thread_rng); (b) grammar-generated programs of up to 60 points per item from random initial states, run by "
               "PushInterpreter::run and single-stepped, after suite nopanic.env decided on the model that the case stays inside the envelope; in (a) and (b) the implementation's result is compared with the model's "
